@@ -39,6 +39,10 @@ CHECKS = {
   text="Reference-chunker testing: both data formats x 0..700 words x 0..40 trailing 0xFF through `preprocess_payload` (differential against an independent chunker), `do_payload_checks` with one faulty word at a generated index (examined exactly once, at its offset, with its bytes), the over-padding triple (reported once at the RDH, payload skipped, state reset) in-process and through the CLI, and the CLI data view (one row per word, no padding row).",
   note="Trusted base: ref_chunk in harness/src/model.rs; words carry their index so order and multiplicity are observable.",
   technique="property-based testing: differential against a reference chunker + metamorphic state-reset triple"),
+ "C13": dict(
+  text="Reference-verdict and metamorphic testing of the stave-level frame checks: frames produced by an independent ALPIDE encoder (all barrels, legal and illegal lane sets, chip ids / bunch counters / readout flags, empty-frame and header/trailer forms, arbitrary hit content, busy words, padding, lanes cut and interleaved over data words and pages, fatal APEs, custom chip count / orders) are judged against a reference verdict per frame (codes and frame start offset, nothing else reported, chip trailer count), in-process and through the CLI; regenerating only the hit content / padding / cutting must leave verdicts and readout-flag counters unchanged.",
+  note="Trusted base: the ALPIDE encoder (harness/src/alpide.rs) and ref_verdict (harness/src/props/c13.rs, DESIGN.md A.4). Frame start = any non-continuation TDH since the previous frame close.",
+  technique="property-based testing: reference verdict (independent encoder + decoder-free oracle from the generated spec) + metamorphic relation (hit content independence)"),
  "C14": dict(
   text="Ground-truth recomputation: every statistic of the statistics file (JSON and TOML) and the cross-checked report rows are compared with values recomputed from the input by the independent walker, for generated well-framed streams with arbitrary header values and for (mutated) conforming streams, in all check modes, the three views and filtered writing, with every filter kind, from file and pipe.",
   note="Trusted base: independent walker; which packets count for which statistic is fixed in DESIGN.md A.5; sets compared as sets, links required sorted; runs with FATAL early stop excluded (counted).",
